@@ -110,8 +110,25 @@ func rulePCloser(p *Program, r *Reporter) {
 		check(fn, tbl[k])
 	}
 	// arity helpers: every method of parser named function<Something>Arg
+	callFn := p.RoleFunc("parser", "parser", "function")
+	isArityHelper := func(fn *ssa.Function) bool {
+		if fn.Signature.Recv() == nil || fn == callFn {
+			return false
+		}
+		if strings.HasPrefix(fn.Name(), "function") {
+			return true
+		}
+		if callFn != nil {
+			for _, c := range staticCallees(callFn) {
+				if c == fn && c.Signature.Recv() != nil && c.Signature.Results().Len() >= 2 {
+					return true
+				}
+			}
+		}
+		return false
+	}
 	for _, fn := range p.ReachFuncs(p.Parser) {
-		if fn.Signature.Recv() != nil && strings.HasPrefix(fn.Name(), "function") && fn.Name() != "function" {
+		if isArityHelper(fn) {
 			check(fn, []string{"CloseParenToken"})
 		}
 	}
